@@ -18,7 +18,10 @@ use super::Rule;
 use crate::base::{ReadStat, StatNode, TokenResult, WriteStat};
 #[cfg(feature = "exporter")]
 use crate::core::base::rule::SentinelRule;
+#[cfg(not(sentinel_verif))]
 use std::sync::{Arc, Mutex, Weak};
+#[cfg(sentinel_verif)]
+use sentinel_verif_rt::sync::{Arc, Mutex, Weak};
 
 /// Traffic Shaping `Calculator` calculates the actual traffic shaping threshold
 /// based on the threshold of rule and the traffic shaping strategy.
